@@ -56,6 +56,10 @@ func c09Gen(c *vfCtx, emit func(c09Case)) {
 										// stale ids that are no id the library hands out, but read as numbers at or below the ordinals reached
 										staleEntryChoices = []vfEntry{{ID: "TestOld - 0", Body: "old"}, {ID: "TestA - 02", Body: "beyond"}, {ID: "TestA/old - 00", Body: "sub"}, {ID: "TestB - 99999999999999999999", Body: "b2\n\nx"}}
 									}
+									if (mask+fmask+cnt+sa)%3 == 1 {
+										// stale ids that differ only in leading zeros of a number (equal under natural ordering): each is an item of its own
+										staleEntryChoices = []vfEntry{{ID: "TestOld/7 - 1", Body: "old"}, {ID: "TestOld/07 - 1", Body: "beyond"}, {ID: "TestA/old - 1", Body: "sub"}, {ID: "TestOld/007 - 1", Body: "b2\n\nx"}}
+									}
 									if mask&1 != 0 {
 										es = append(es, staleEntryChoices[0])
 									}
@@ -81,6 +85,10 @@ func c09Gen(c *vfCtx, emit func(c09Case)) {
 									}
 									if skip {
 										sc.Skips = []string{"TestSkip"}
+										if (mask+fmask)%2 == 1 {
+											// more tests that skip themselves, named so that they sort between TestSkip and its subtests (`#`, `-`, `.` < `/`)
+											sc.Skips = []string{"TestSkip-a", "TestSkip", "TestSkip#01", "TestSkip.b"}
+										}
 										es = append(es, vfEntry{ID: "TestSkip - 1", Body: "s"}, vfEntry{ID: "TestSkip/sub - 1", Body: "s"}, vfEntry{ID: "TestSkipX - 1", Body: "sibling"})
 									}
 									sc.Files = []vfNamedFile{{Name: "f.snap", Entries: es}}
